@@ -954,7 +954,7 @@ class Engine:
     def cut_loop(self, s, frame, spec, k, cond, pre_body, body, orelse, extra_havoc=(), hidden=None):
         pfx = self.vf.oid_prefix(frame)
         inv = list(spec.invariant) if spec else []
-        env_extra = {k2: v2 for k2, v2 in (hidden or {}).items() if k2 != "__bound__"}
+        env_extra = {k2: v2 for k2, v2 in (hidden or {}).items() if not k2.startswith("__")}
         # 1. invariant on entry
         for j, c in enumerate(inv):
             self.prove(f"{pfx}:inv-entry@loop{k}#{j + 1}", self.eval_goal(c, frame, extra=env_extra), "inv-entry", s, detail=c, frame=frame, extra=env_extra)
@@ -1005,7 +1005,11 @@ class Engine:
                     self.assume(hidden[hn].t >= 0)       # iteration counter
                     if hidden.get("__bound__") is not None:
                         self.assume(hidden[hn].t <= hidden["__bound__"].t)      # never beyond the iterable's length
-            env_extra = {k2: v2 for k2, v2 in hidden.items() if k2 != "__bound__"}
+                elif hn.startswith("_lo"):
+                    hidden[hn] = VInt(z3.Int(fresh_name(hn)))
+            if "__at_head__" in hidden:
+                hidden["__at_head__"](hidden)
+            env_extra = {k2: v2 for k2, v2 in hidden.items() if not k2.startswith("__")}
         self.loop_old[k] = pre
         # 3. assume invariant
         for c in inv:
@@ -1017,14 +1021,14 @@ class Engine:
         if spec and spec.decreases:
             m0 = self.eval_spec(spec.decreases, frame, extra=env_extra)
         # 4. fork on the loop condition
-        entered = self.branch(cond(env_extra) if hidden is not None else cond())
+        entered = self.branch(cond(hidden) if hidden is not None else cond())
         if not entered:
             self.exec_block(orelse, frame)
             return
         if m0 is not None:
             self.prove(f"{pfx}:variant-nonneg@loop{k}", m0.t >= 0, "variant", s, detail=spec.decreases)
         try:
-            pre_body(env_extra) if hidden is not None else pre_body()
+            pre_body(hidden) if hidden is not None else pre_body()
             self.exec_block(body, frame)
         except BreakSig:
             return
@@ -1034,7 +1038,9 @@ class Engine:
             for hn in list(hidden):
                 if hn.startswith("_it"):
                     hidden[hn] = VInt(hidden[hn].t + 1)
-            env_extra = {k2: v2 for k2, v2 in hidden.items() if k2 != "__bound__"}
+            if "__advance__" in hidden:
+                hidden["__advance__"](hidden)
+            env_extra = {k2: v2 for k2, v2 in hidden.items() if not k2.startswith("__")}
         for j, c in enumerate(inv):
             self.prove(f"{pfx}:inv-preserved@loop{k}#{j + 1}", self.eval_goal(c, frame, extra=env_extra), "inv-preserved", s, detail=c, frame=frame, extra=env_extra)
         if m0 is not None:
@@ -1081,6 +1087,8 @@ class Engine:
         if self.vf.unroll_mode:
             raise OutOfSubset(s, "for over symbolic iterable in unroll mode")
         hidden = {f"_it{k}": VInt(0)}
+        if getattr(itd, "split_of", None) is not None:
+            pass
         rng = getattr(it, "range", None)
         if rng is not None:
             lo, hi, step = rng
@@ -1093,6 +1101,33 @@ class Engine:
 
             def pre_body(h):
                 self.assign(s.target, VInt(lo + h[f"_it{k}"].t), frame)
+        elif getattr(itd, "split_of", None) is not None:
+            # for seg in s.split(sep): segments are the maximal sep-free windows, in order.  Hidden state
+            # _lo<k> = start of the next segment (0 at entry, previous end + 1 afterwards, len+1 at exhaustion)
+            sseq, sepb = itd.split_of
+            hidden = {f"_lo{k}": VInt(0), f"_it{k}": VInt(0)}
+
+            def cond(h):
+                return h[f"_lo{k}"].t <= sseq.n
+
+            def pre_body(h):
+                lo = h[f"_lo{k}"].t
+                hi = fresh_int("seg_hi")
+                j = fresh_bound("j")
+                self.assume(z3.And(lo <= hi, hi <= sseq.n,
+                                   z3.ForAll([j], z3.Implies(z3.And(lo <= j, j < hi), sseq.at(j) != sepb)),
+                                   z3.Or(hi == sseq.n, sseq.at(hi) == sepb)))
+                h["__hi__"] = hi
+                self.assign(s.target, seq_slice_raw(sseq, lo, z3.simplify(hi - lo), "bytes"), frame)
+
+            def advance(h):
+                h[f"_lo{k}"] = VInt(h["__hi__"] + 1)
+
+            def at_head(h):
+                lo = h[f"_lo{k}"].t
+                self.assume(z3.And(0 <= lo, lo <= sseq.n + 1, z3.Or(lo == 0, sseq.at(lo - 1) == sepb)))
+            hidden["__advance__"] = advance
+            hidden["__at_head__"] = at_head
         elif getattr(itd, "enum_of", None) is not None:
             snap = itd.enum_of
 
